@@ -446,6 +446,16 @@ func lexInterpret(c *Ctx, f, nextFn, peekFn, acceptFn *ssa.Function, states []*s
 						return keys[rep], true
 					}
 				}
+				// a boolean result of a module classifier of the current rune (`typ, ok := punctuationItemType(r)`)
+				if call, ok := x.Tuple.(*ssa.Call); ok && cur != nil {
+					if g := calleeFunc(&call.Call); g != nil && c.w.inModule(g) && g.Blocks != nil {
+						for k, a := range call.Call.Args {
+							if peelConv(a) == cur && k < len(g.Params) {
+								return evalRuneFunc(g, g.Params[k], rep, x.Index)
+							}
+						}
+					}
+				}
 			case *ssa.UnOp:
 				if x.Op == token.NOT {
 					if r, ok := evalB(x.X, bools); ok {
@@ -631,6 +641,11 @@ func addLexEdge(byRet map[*ssa.Return]*lexEdge, order *[]*ssa.Return, f *ssa.Fun
 // evalRunePred interprets a pure predicate g for the concrete value rep of its parameter par: only comparisons of par
 // with constants, boolean connectives (as control flow and phis) and constant returns are understood.
 func evalRunePred(g *ssa.Function, par ssa.Value, rep int64) (bool, bool) {
+	return evalRuneFunc(g, par, rep, 0)
+}
+
+// evalRuneFunc is evalRunePred for functions with several results: it yields result number res (which must be boolean).
+func evalRuneFunc(g *ssa.Function, par ssa.Value, rep int64, res int) (bool, bool) {
 	bools := map[ssa.Value]bool{}
 	var ev func(v ssa.Value) (bool, bool)
 	ev = func(v ssa.Value) (bool, bool) {
@@ -705,10 +720,10 @@ func evalRunePred(g *ssa.Function, par ssa.Value, rep int64) (bool, bool) {
 			case *ssa.Jump:
 				next = b.Succs[0]
 			case *ssa.Return:
-				if len(x.Results) != 1 {
+				if res >= len(x.Results) {
 					return false, false
 				}
-				return ev(x.Results[0])
+				return ev(x.Results[res])
 			case *ssa.Call, *ssa.Store, *ssa.Panic, *ssa.Send, *ssa.MapUpdate:
 				return false, false // not a pure predicate
 			}
